@@ -20,7 +20,7 @@ let parse_op (t : string) : Rwinfo.operand =
 let parse_a64_op (t : string) : Rwinfo.a64_operand =
   let parts = String.split_on_char ':' t in
   match t.[0], parts with
-  | ('v' | 'x' | 'w'), _ -> Rwinfo.AReg None
+  | ('v' | 'x' | 'w' | 's'), _ -> Rwinfo.AReg None
   | 'e', [k; _; idx] ->
     let et = (match k.[1] with 'b' -> 1 | 'h' -> 2 | 's' -> 3 | 'd' -> 4 | _ -> failwith "elem") in
     Rwinfo.AReg (Some (n_of_int et, cn_of_string idx))
@@ -66,6 +66,19 @@ let () =
               print_endline (Buffer.contents b)
           end
         with _ -> print_endline "Q PARSE-ERROR")
+      | "F" :: arch :: id :: opts :: extra :: nops :: ops ->
+        (try
+          let n = int_of_string nops in
+          if List.length ops <> n then print_endline "F PARSE-ERROR" else begin
+            let q = { Rwinfo.q_arch64 = (arch <> "0"); q_id = cn_of_string id; q_options = cn_of_string opts;
+                      q_extra_mask = (extra <> "0"); q_ops = List.map parse_op ops } in
+            match Rwinfo.query_features Rwinfo.x86_tables Rwinfo.x86_feat_consts q with
+            | None -> print_endline "F 1"
+            | Some l ->
+              let ids = List.sort_uniq compare (List.map (fun x -> Z.to_int (z_of_cn x)) l) in
+              print_endline (String.concat " " ("F" :: "0" :: List.map string_of_int ids))
+          end
+        with _ -> print_endline "F PARSE-ERROR")
       | "A" :: id :: nops :: ops ->
         (try
           let n = int_of_string nops in
